@@ -130,6 +130,9 @@ type Runner struct {
 	// produced on this side (normalised away, DESIGN.md 2).
 	lastTemp string
 	NoOwner  bool // owners are not rendered in FileInfo values
+	// OwnerZero: the id this file system gives its administrator when it is not 0 (OrefaFS has no identity
+	// manager: math.MaxInt); rendered as 0, which is what the kernel gives root
+	OwnerZero int
 	// partial marks handles on which a partial directory read (n > 0) was
 	// issued: which entries remain depends on the unspecified directory order,
 	// so later reads on that handle are compared by count only.
@@ -239,7 +242,7 @@ func TypeLetter(m fs.FileMode) string {
 
 // InfoString renders what is compared of a FileInfo: name, type, permission
 // bits, owner, size of regular files and symlinks, link count of regular files.
-func InfoString(fsys FS, fi fs.FileInfo, noOwner bool) (s string) {
+func InfoString(fsys FS, fi fs.FileInfo, noOwner bool, ownerZero ...int) (s string) {
 	if fi == nil {
 		return "<nil>"
 	}
@@ -253,6 +256,9 @@ func InfoString(fsys FS, fi fs.FileInfo, noOwner bool) (s string) {
 	uid, gid := st.Uid(), st.Gid()
 	if noOwner {
 		uid, gid = 0, 0
+	}
+	if len(ownerZero) > 0 {
+		uid, gid = NormID(uid, ownerZero[0]), NormID(gid, ownerZero[0])
 	}
 	s = fmt.Sprintf("%s %s %04o %d:%d", fi.Name(), t, PermBits(fi.Mode()), uid, gid)
 	if t == "f" || t == "l" {
@@ -435,7 +441,7 @@ func (r *Runner) do(o Op) (out Out) {
 		if err != nil {
 			return e(err)
 		}
-		return Out{Err: "ok", Val: InfoString(f, fi, r.NoOwner)}
+		return Out{Err: "ok", Val: InfoString(f, fi, r.NoOwner, r.OwnerZero)}
 	case "Mtime":
 		fi, err := f.Stat(o.P)
 		if err != nil {
@@ -453,7 +459,7 @@ func (r *Runner) do(o Op) (out Out) {
 		if err != nil {
 			return e(err)
 		}
-		return Out{Err: "ok", Val: InfoString(f, fi, r.NoOwner)}
+		return Out{Err: "ok", Val: InfoString(f, fi, r.NoOwner, r.OwnerZero)}
 	case "ReadDir":
 		ents, err := f.ReadDir(o.P)
 		return ev(err, entriesString(ents))
@@ -540,7 +546,7 @@ func (r *Runner) do(o Op) (out Out) {
 		if err != nil {
 			return e(err)
 		}
-		return Out{Err: "ok", Val: InfoString(f, fi, r.NoOwner)}
+		return Out{Err: "ok", Val: InfoString(f, fi, r.NoOwner, r.OwnerZero)}
 	case "FSync":
 		return e(h.Sync())
 	case "FChmod":
@@ -648,4 +654,12 @@ func tempShape(name, dir, pattern string) string {
 	ok := strings.HasPrefix(name, d+"/"+prefix) && strings.HasSuffix(name, suffix) &&
 		len(name) > len(d)+1+len(prefix)+len(suffix) && !strings.Contains(name[len(d)+1:], "/")
 	return fmt.Sprintf("shape-ok=%v", ok)
+}
+
+// NormID renders the administrator's id of a file system without identity manager as 0.
+func NormID(id, zero int) int {
+	if zero != 0 && id == zero {
+		return 0
+	}
+	return id
 }
